@@ -46,6 +46,10 @@ func Set() []Value {
 	}
 	add(`["\/"]`, `["/"]`)
 	add(`["\u000a"]`, `["\n"]`, `["\u000A"]`)
+	// characters that decoders use as markers, written raw and escaped: U+FFFD (the replacement character), U+FFFE, U+FEFF
+	add("[\"\ufffd\"]", `["\ufffd"]`, `["\uFFFD"]`)
+	add("{\"a\ufffdb\":\"\ufffd\ufffd\"}", `{"a\ufffdb":"\ufffd\uFFFD"}`)
+	add("[\"\ufffe\ufeff\"]", `["\ufffe\ufeff"]`)
 	add(`["😀"]`, `["😀"]`)
 	add(`{"a":1}`, `{"a":1}`, `{"a":1.0}`, `{"a":1e0}`, `{"a":10E-1}`)
 	nums := []float64{0, 1, -1, 2, 10, 1e21, 1e-6, 1e-7, 999999999999999900000, 9007199254740992, 9007199254740993, 0.1, 0.5, 1.5, 5e-324, 1.7976931348623157e308, 123456789, 1e100, -1e-100, 3.14}
